@@ -323,7 +323,10 @@ func init() {
 									accFlags = gen.NetworkFlags{Enable: true, EnableRemoteApplicationStart: true, EnableFragmentation: true}
 								}
 								nodeFlagsB := gen.NetworkFlags{Enable: true, EnableProxyAccept: true, EnableRemoteSpawn: true}
-								a := startTCPNode("a@localhost", tcpNodeCfg{cookie: cA, maxSize: 1000 + idx})
+								// A's own flags differ from the library default, so that "route flags or else the node's"
+								// is distinguishable from "route flags or else the default"
+								nodeFlagsA := gen.NetworkFlags{Enable: true, EnableRemoteSpawn: true, EnableFragmentation: true, EnableProxyTransit: true}
+								a := startTCPNode("a@localhost", tcpNodeCfg{cookie: cA, flags: nodeFlagsA, maxSize: 1000 + idx})
 								b := startTCPNode("b@localhost", tcpNodeCfg{cookie: cB, accCookie: aB, withAccept: true, accFlags: accFlags, flags: nodeFlagsB, maxSize: 5000 + idx})
 								port := b.network.acceptors[0].port
 								route := gen.NetworkRoute{Route: gen.Route{Host: "127.0.0.1", Port: port}, Cookie: rA, Flags: routeFlags}
@@ -375,7 +378,7 @@ func init() {
 										chk(rn.Name() == b.name && rb.Name() == a.name, "names %s / %s", rn.Name(), rb.Name())
 										chk(rn.Creation() == b.creation && rb.Creation() == a.creation, "incarnations %d / %d (real %d / %d)", rn.Creation(), rb.Creation(), b.creation, a.creation)
 										wantB := orDefault(accFlags, nodeFlagsB)
-										wantA := orDefault(routeFlags, gen.DefaultNetworkFlags)
+										wantA := orDefault(routeFlags, nodeFlagsA)
 										chk(ia.NetworkFlags == wantB, "A sees flags %+v of B, B's endpoint has %+v", ia.NetworkFlags, wantB)
 										chk(ib.NetworkFlags == wantA, "B sees flags %+v of A, A's route has %+v", ib.NetworkFlags, wantA)
 										chk(ia.MaxMessageSize == 5000+idx && ib.MaxMessageSize == 1000+idx, "size limits %d / %d", ia.MaxMessageSize, ib.MaxMessageSize)
